@@ -236,7 +236,7 @@ theorem refine_calls (insOf : String → List Param) (run : Runner)
     have hargs := args_step st hst F hF ρ insOf env self sib hrel c hc'
     have hgood := hrun c.callee (path ++ [c.id]) _ _ hargs
     obtain ⟨g1, g2, g3⟩ := hgood
-    simp only [evalCalls, staticCalls]
+    simp only [evalCalls, staticCalls, hc.1, Bool.false_eq_true, if_false]
     rw [evalCall_plain st F insOf run path [] env c hc.1 hc.2.1]
     simp only
     have hrel' := envRel_step st F ρ env self sib hrel c.id c.callee _ _ g1 g2
